@@ -124,7 +124,9 @@ def _continue(conf, path):
     from ..instrument import Hooks
     m1, m2 = PartitionMonitor(), EstimatorMonitor()
     prob = workloads.Problem(conf['prob'])
-    with Hooks([m1, m2]) as h, warnings.catch_warnings(), np.errstate(all='ignore'):
+    from ..instrument import VirtualClock
+    with Hooks([m1, m2], proposal_budget=30_000_000, clock=VirtualClock()) as h, warnings.catch_warnings(), \
+            np.errstate(all='ignore'):
         warnings.simplefilter('ignore')
         s = workloads.make_sampler(prob, conf['cfg'], filepath=path, resume=True)
         h.emit('on_resume', s)
@@ -253,6 +255,9 @@ def run_case(spec):
                 elif not ok:
                     bad('crash.continuation-does-not-finish', 'resumed from the file left by SIGKILL at %s #%d: run() did '
                         'not finish within the budget' % (sc, n), point=[sc, n])
+            except workloads.BudgetExceeded as ex:
+                bad('crash.continuation-does-not-finish', 'resumed from the file left by SIGKILL at %s #%d: %s'
+                    % (sc, n, ex), point=[sc, n])
             except Exception as ex:
                 import traceback
                 frames = traceback.extract_tb(ex.__traceback__)
